@@ -2,6 +2,7 @@ package c15
 
 import (
 	"fmt"
+	"strings"
 
 	"github.com/NVIDIA/KAI-scheduler/pkg/scheduler/api/pod_status"
 
@@ -37,13 +38,53 @@ func hierBase(jobs ...Job) *World {
 const hierSalt = 0x68696572
 
 var hierCorpus = []string{"hier-sibling-big-first", "hier-no-sibling-big", "hier-big-in-victim-dept", "hier-three-depts", "hier-big-schedulable",
-	"hier-dept-limit"}
+	"hier-dept-limit",
+	// the world of seeded/C15-4/README.md under the saturation multipliers 1, 1.5, 2 and 3 (all valid: m >= 1)
+	"hier-saturation-m1", "hier-saturation-m1.5", "hier-saturation-m2", "hier-saturation-m3"}
+
+// hierSaturation is the world of seeded/C15-4/README.md: 7 GPUs on two nodes of different sizes, two departments whose
+// project quotas over-subscribe the department (dept-a 3 < 2 + 2, dept-b 4 < 3 + 2).  dept-a holds 2 of its fair share
+// 3, dept-b 5 of its fair share 4; a-new-train (2 GPUs, pending) is within the fair share of its own queue
+// (CanReclaimResources passes) and taking b-small-train's 2 GPUs would merely swap the over-use: dept-a 4/3, dept-b 3/4.
+// Only the saturation rule of reclaimable.isFairShareSaturationLowerPerResource stands in the way: it refuses when
+// ratio(reclaimer's department) * m >= ratio(sibling department), here 4/3 * m >= 3/4 - for EVERY m >= 1.  Unchanged
+// tree: no eviction under any of the four multipliers.  With the multiplier on the sibling's side (seeded change
+// C15-4: 4/3 >= m * 3/4 refuses) m = 2 and m = 3 let the reclaim through, and because consolidating reclaim also
+// evicts and re-places a-old's pods on the victim's node the simulation places the reclaimer first: b-small-train is
+// bound by allocate and evicted again by reclaim in every cycle (period-1 lasso from cycle 1 on).
+func hierSaturation(mult string) *World {
+	return &World{
+		Nodes: []core.NodeSpec{gnode("node-0", 3, 64000), gnode("node-1", 4, 64000)},
+		Depts: []Dept{{Name: "dept-a", Deserved: 3}, {Name: "dept-b", Deserved: 4}},
+		Queues: []Queue{{Name: "a-new", Parent: "dept-a", Deserved: 2, OverQuota: 1, Priority: 100},
+			{Name: "a-old", Parent: "dept-a", Deserved: 2, OverQuota: 1, Priority: 100},
+			{Name: "b-big", Parent: "dept-b", Deserved: 3, OverQuota: 1, Priority: 100},
+			{Name: "b-small", Parent: "dept-b", Deserved: 2, OverQuota: 1, Priority: 100}},
+		// creation order as in the demonstration (jobs_fake: earlier in the list = older)
+		Jobs: []Job{sizedJob("a-old-1", "a-old", 50, 5, 1, "node-1"), sizedJob("b-small-train", "b-small", 50, 4, 2, "node-1"),
+			sizedJob("a-old-2", "a-old", 50, 3, 1, "node-1"), sizedJob("a-new-train", "a-new", 50, 2, 2, ""),
+			sizedJob("b-big-train", "b-big", 50, 1, 3, "node-0")},
+		Cfg: Config{Actions: defaultActions, ConsolidatingReclaim: true, MaxConsolidation: -1, Multiplier: mult},
+	}
+}
 
 func hierScenario(name string) *World {
 	var k int
+	if n, _ := fmt.Sscanf(name, "satfam:%d", &k); n == 1 {
+		if fam := satFamily(); k >= 0 && k < len(fam) {
+			return fam[k]
+		}
+		return nil
+	}
 	if n, _ := fmt.Sscanf(name, "hierfam:%d", &k); n == 1 {
 		if fam := hierFamily(); k >= 0 && k < len(fam) {
 			return fam[k]
+		}
+		return nil
+	}
+	if strings.HasPrefix(name, "hier-saturation-m") {
+		if m := strings.TrimPrefix(name, "hier-saturation-m"); multKnown(m) {
+			return hierSaturation(m)
 		}
 		return nil
 	}
@@ -148,6 +189,10 @@ func hierScenario(name string) *World {
 // pending job in one leaf queue and a big pending job in a sibling leaf queue of higher
 // priority (first in the department's order), another department is above its quota.
 func GenHier(r *u.Rng) *World {
+	// 2 of 5 hierarchical worlds are saturation-shaped (genHierSat); decided on a forked PRNG
+	if r.Fork(0x736174).Intn(5) < 2 {
+		return genHierSat(r.Fork(0x73617475))
+	}
 	w := &World{}
 	nn := u.Pick(r, []int{1, 1, 1, 2})
 	total := int64(0)
@@ -272,7 +317,216 @@ func GenHier(r *u.Rng) *World {
 			add(q, int32(u.Pick(r, prios)), int64(u.Pick(r, []int{1, 1, 1, 2, 2, 3, 4})), r.Chance(3, 5))
 		}
 	}
-	w.Cfg = genConfig(r, []string{"", "", "", "1.0", "1.5", "2"})
+	w.Cfg = genConfig(r, hierMultipliers)
+	return w
+}
+
+// saturation multipliers of the hierarchical streams: absent (= 1) and the VALID settings 1, 1.2, 1.5, 2, 3, 5
+// (values below 1 are replaced by 1 when the plugin starts: the class stream and the corpus world pingpong-m0.4
+// exercise that clamp)
+var hierMultipliers = []string{"", "", "1.0", "1.2", "1.5", "2", "3", "5"}
+var satMultipliers = []string{"", "1.0", "1.2", "1.2", "1.5", "1.5", "2", "2", "3", "3", "5", "5"}
+
+// genHierSat draws a SATURATION-SHAPED hierarchical world - the neighbourhood of seeded/C15-4/README.md: 2-3 nodes of
+// DIFFERENT sizes, 2-3 departments whose quotas add up to about the cluster, 1-3 project queues per department whose
+// quotas OVER-SUBSCRIBE the department (each between half and all of the department's quota), so that a project can be
+// within its own fair share while its department ends above its fair share and only the saturation rule of
+// reclaimable.isFairShareSaturationLowerPerResource decides; the cluster is (nearly) full, one department holds more
+// than its quota, another less; the department below its quota has a pending job of 1-3 GPUs in one project and
+// small running jobs of a sibling project spread over the nodes (what a consolidating reclaim evicts and re-places);
+// multipliers from satMultipliers, consolidating reclaim on in 3 of 4 worlds.
+func genHierSat(r *u.Rng) *World {
+	w := &World{}
+	nn := u.Pick(r, []int{2, 2, 2, 3})
+	total := int64(0)
+	free := map[string]*[2]int64{}
+	sizes := []int{2, 3, 4, 5}
+	u.Shuffle(r, sizes)
+	for i := 0; i < nn; i++ {
+		g := int64(sizes[i]) // different sizes
+		ns := gnode(fmt.Sprintf("n%d", i+1), g, 64000)
+		w.Nodes = append(w.Nodes, ns)
+		free[ns.Name] = &[2]int64{g, ns.Cpu}
+		total += g
+	}
+	nd := u.Pick(r, []int{2, 2, 2, 3})
+	// department quotas: a split of the cluster, sometimes one GPU more or less in total
+	rest := int(total) + u.Pick(r, []int{0, 0, 0, -1, 1})
+	for i := 0; i < nd; i++ {
+		d := Dept{Name: fmt.Sprintf("d%d", i+1)}
+		share := rest / (nd - i)
+		if i < nd-1 && share > 1 {
+			share += r.Range(-1, 1)
+		}
+		if share < 1 {
+			share = 1
+		}
+		d.Deserved = float64(share)
+		rest -= share
+		if r.Chance(1, 10) {
+			d.Deserved += 0.5
+		}
+		w.Depts = append(w.Depts, d)
+	}
+	qi := 0
+	leaves := map[string][]string{}
+	for i, d := range w.Depts {
+		nl := u.Pick(r, []int{2, 2, 2, 1, 3})
+		if i == 0 && nl < 2 {
+			nl = 2
+		}
+		dq := int(d.Deserved)
+		for k := 0; k < nl; k++ {
+			qi++
+			// between half and all of the department's quota: two of them over-subscribe it
+			lo := (dq + 1) / 2
+			if lo < 1 {
+				lo = 1
+			}
+			q := Queue{Name: fmt.Sprintf("q%d", qi), Parent: d.Name, Deserved: float64(r.Range(lo, max(dq, lo))), OverQuota: float64(u.Pick(r, []int{1, 1, 1, 1, 0, 2})),
+				Priority: u.Pick(r, []int{100, 100, 100, 100, 200})}
+			w.Queues = append(w.Queues, q)
+			leaves[d.Name] = append(leaves[d.Name], q.Name)
+		}
+	}
+	age := 200
+	add := func(queue string, prio int32, gpus int64, run bool) bool {
+		age--
+		j := sizedJob(fmt.Sprintf("j%d", len(w.Jobs)+1), queue, prio, age, gpus, "")
+		placed := false
+		if run {
+			if node, ok := placeWhole(r, free, w.Nodes, gpus, 0); ok {
+				j.Pods[0].Status, j.Pods[0].Node = pod_status.Running, node
+				placed = true
+			} else {
+				age++
+				return false // a job meant to run that does not fit is left out
+			}
+		}
+		w.Jobs = append(w.Jobs, j)
+		return placed
+	}
+	prios := []int{50, 50, 50, 50, 60}
+	// d1 is the department below its quota: it runs quota - short GPUs as small jobs of its SECOND project
+	short := r.Range(1, 2)
+	runA := int(w.Depts[0].Deserved) - short
+	old := leaves["d1"][1]
+	for runA > 0 {
+		g := int64(u.Pick(r, []int{1, 1, 1, 2}))
+		if int(g) > runA {
+			g = int64(runA)
+		}
+		add(old, int32(u.Pick(r, prios)), g, true)
+		runA -= int(g)
+	}
+	// the other departments fill the rest of the cluster (so at least one of them is above its quota)
+	for k := 0; k < 16; k++ {
+		left := int64(0)
+		for _, f := range free {
+			left += f[0]
+		}
+		if left == 0 || (left == 1 && r.Chance(1, 4)) {
+			break
+		}
+		d := w.Depts[1+r.Intn(nd-1)]
+		add(u.Pick(r, leaves[d.Name]), int32(u.Pick(r, prios)), int64(u.Pick(r, []int{1, 2, 2, 3})), true)
+	}
+	// the pending job of d1's first project, sometimes a second pending job somewhere
+	add(leaves["d1"][0], int32(u.Pick(r, prios)), int64(u.Pick(r, []int{1, 2, 2, 3})), false)
+	for k := r.Intn(3); k > 0; k-- {
+		add(u.Pick(r, w.Queues).Name, int32(u.Pick(r, prios)), int64(u.Pick(r, []int{1, 1, 2})), false)
+	}
+	w.Cfg = genConfig(r, satMultipliers)
+	if r.Chance(1, 2) {
+		w.Cfg.ConsolidatingReclaim = true
+	}
+	if r.Chance(1, 2) {
+		w.Cfg.Actions = defaultActions
+	}
+	return w
+}
+
+// satFamily enumerates the neighbourhood of the world of seeded/C15-4/README.md (deterministic, no PRNG): the six valid
+// multipliers x the node layout (3 + 4 as in the README, one node of 7, 4 + 3 with the departments swapped over the
+// nodes, 2 + 5) x a-old as two 1-GPU jobs or one 2-GPU job x consolidating reclaim on / off x the reclaimer's size
+// (2 GPUs as in the README, or 1 GPU: dept-a ends AT its fair share and the saturation rule does not apply).
+// Names: satfam:<k>.
+func satFamily() []*World {
+	var out []*World
+	for _, mult := range []string{"1.0", "1.2", "1.5", "2", "3", "5"} {
+		for _, layout := range []string{"3+4", "7", "4+3", "2+5"} {
+			for _, aold := range []string{"1+1", "2"} {
+				for _, cons := range []bool{true, false} {
+					for _, rsize := range []int64{2, 1} {
+						out = append(out, satFamilyWorld(mult, layout, aold, cons, rsize))
+					}
+				}
+			}
+		}
+	}
+	return out
+}
+
+func satFamilyWorld(mult, layout, aold string, cons bool, rsize int64) *World {
+	w := hierSaturation(mult)
+	w.Cfg.ConsolidatingReclaim = cons
+	bigNode, smallNode := "node-0", "node-1" // b-big-train (3 GPUs) / everything else (4 GPUs)
+	switch layout {
+	case "7":
+		w.Nodes = []core.NodeSpec{gnode("node-0", 7, 64000)}
+		smallNode = "node-0"
+	case "4+3":
+		// b-big-train shares the 4-GPU node with a-old-1; b-small-train and a-old-2 fill the 3-GPU node
+		w.Nodes = []core.NodeSpec{gnode("node-0", 4, 64000), gnode("node-1", 3, 64000)}
+	case "2+5":
+		// b-small-train alone on the 2-GPU node
+		w.Nodes = []core.NodeSpec{gnode("node-0", 2, 64000), gnode("node-1", 5, 64000)}
+		bigNode, smallNode = "node-1", "node-1"
+	}
+	var jobs []Job
+	for _, j := range w.Jobs {
+		switch j.Name {
+		case "b-big-train":
+			j.Pods[0].Node = bigNode
+		case "a-new-train":
+			j.Pods[0].Gpus = rsize
+		case "b-small-train":
+			j.Pods[0].Node = smallNode
+			if layout == "2+5" {
+				j.Pods[0].Node = "node-0"
+			}
+		case "a-old-1":
+			j.Pods[0].Node = smallNode
+			if layout == "4+3" {
+				j.Pods[0].Node = "node-0"
+			}
+			if aold == "2" {
+				j.Pods[0].Gpus = 2
+				if layout == "4+3" {
+					// 2 GPUs do not fit next to b-big-train on the 4-GPU node: swap the roles of the nodes
+					j.Pods[0].Node = "node-0"
+				}
+			}
+		case "a-old-2":
+			if aold == "2" {
+				continue
+			}
+			j.Pods[0].Node = smallNode
+		}
+		jobs = append(jobs, j)
+	}
+	if layout == "4+3" && aold == "2" {
+		// node-0 (4): a-old-1 (2) + b-small-train (2); node-1 (3): b-big-train (3)
+		for i := range jobs {
+			switch jobs[i].Name {
+			case "b-big-train":
+				jobs[i].Pods[0].Node = "node-1"
+			case "b-small-train", "a-old-1":
+				jobs[i].Pods[0].Node = "node-0"
+			}
+		}
+	}
+	w.Jobs = jobs
 	return w
 }
 
